@@ -49,14 +49,14 @@ func (Prop) Refine(v *core.Violation, t, s []uint32, exec func(t, s []uint32) (*
 // scenario
 
 type scenario struct {
-	ids     []cedar.PolicyID
-	texts   []string
-	pols    []*cedar.Policy
-	ents    types.EntityGetter
-	entsStr string
-	req     batch.Request
-	names   []types.String // variable names, sorted
-	nested  bool           // some variable is nested in the context
+	ids        []cedar.PolicyID
+	texts      []string
+	pols       []*cedar.Policy
+	ents       types.EntityGetter
+	entsStr    string
+	req        batch.Request
+	names      []types.String // variable names, sorted
+	nested     bool           // some variable is nested in the context
 	customIter bool
 }
 
@@ -530,18 +530,20 @@ func (p Prop) Run(r *core.Run) *core.Violation {
 	defer sim.Deactivate()
 	pols := sc.policies(r)
 	if r.Tracing {
-		for i := range sc.ids {
-			r.Logf("policy %s: %s", sc.ids[i], sc.texts[i])
-		}
-		r.Logf("entities: %s", sc.entsStr)
-		r.Logf("template: P=%v A=%v R=%v C=%s custom-iterator=%v", sc.req.Principal, sc.req.Action, sc.req.Resource, gen.Canon(sc.req.Context), sc.customIter)
-		for _, n := range sc.names {
-			var vs []string
-			for _, v := range sc.req.Variables[n] {
-				vs = append(vs, gen.Canon(v))
+		r.Quiet(func() {
+			for i := range sc.ids {
+				r.Logf("policy %s: %s", sc.ids[i], sc.texts[i])
 			}
-			r.Logf("variable %s in [%s]", n, strings.Join(vs, ", "))
-		}
+			r.Logf("entities: %s", sc.entsStr)
+			r.Logf("template: P=%v A=%v R=%v C=%s custom-iterator=%v", sc.req.Principal, sc.req.Action, sc.req.Resource, gen.Canon(sc.req.Context), sc.customIter)
+			for _, n := range sc.names {
+				var vs []string
+				for _, v := range sc.req.Variables[n] {
+					vs = append(vs, gen.Canon(v))
+				}
+				r.Logf("variable %s in [%s]", n, strings.Join(vs, ", "))
+			}
+		})
 	}
 	exp, N, valid := product(sc, pols)
 	if !valid {
@@ -602,7 +604,9 @@ func (p Prop) Run(r *core.Run) *core.Violation {
 		r.Nontrivial(h.Sum64())
 	}
 	if r.T.Pos()%41 == 0 || r.Tracing {
-		r.Sample(map[string]any{"policies": sc.texts, "template": fmt.Sprintf("P=%v A=%v R=%v C=%s", sc.req.Principal, sc.req.Action, sc.req.Resource, gen.Canon(sc.req.Context)), "variables": sc.names, "product": N, "fault_plans": 2*N + 2})
+		r.Quiet(func() {
+			r.Sample(map[string]any{"policies": sc.texts, "template": fmt.Sprintf("P=%v A=%v R=%v C=%s", sc.req.Principal, sc.req.Action, sc.req.Resource, gen.Canon(sc.req.Context)), "variables": sc.names, "product": N, "fault_plans": 2*N + 2})
+		})
 	}
 	var maxGap uint64 = 1
 	prev := free.startStep
